@@ -2264,6 +2264,16 @@ fn e2e_recursive_one<S>(ctx: &mut Ctx, sname: &str, stark: S, rows: Vec<Vec<plon
 where
     S: Stark<plonky2_field::goldilocks_field::GoldilocksField, 2> + Copy,
 {
+    e2e_recursive_var(ctx, sname, stark, rows, pis, cname, config, None)
+}
+
+/// `var = Some((verifier_degree_bits, min_degree_bits_to_support))`: one circuit sized for the
+/// maximum trace length verifies a shorter proof (the variable-degree mode of the recursive verifier).
+#[allow(clippy::too_many_arguments)]
+fn e2e_recursive_var<S>(ctx: &mut Ctx, sname: &str, stark: S, rows: Vec<Vec<plonky2_field::goldilocks_field::GoldilocksField>>, pis: Vec<plonky2_field::goldilocks_field::GoldilocksField>, cname: &str, config: StarkConfig, var: Option<(usize, usize)>)
+where
+    S: Stark<plonky2_field::goldilocks_field::GoldilocksField, 2> + Copy,
+{
     use plonky2::plonk::config::PoseidonGoldilocksConfig as C;
     use plonky2_field::goldilocks_field::GoldilocksField as G;
     use starky::recursive_verifier::{add_virtual_stark_proof_with_pis, set_stark_proof_with_pis_target, verify_stark_proof_circuit};
@@ -2271,13 +2281,14 @@ where
     let setup = std::panic::catch_unwind(std::panic::AssertUnwindSafe(|| {
         let cols = rows[0].len();
         let trace: Vec<PolynomialValues<G>> = (0..cols).map(|c| PolynomialValues::new(rows.iter().map(|r| r[c]).collect())).collect();
-        let proof = prove::<G, C, S, 2>(stark, &config, trace, &pis, None, &mut TimingTree::default()).expect("the real prover failed on a satisfying trace");
-        starky::verifier::verify_stark_proof(stark, proof.clone(), &config, None).expect("honest proof verifies");
-        let degree_bits = proof.proof.recover_degree_bits(&config);
+        let vparams = var.map(|(vb, _)| config.fri_params(vb));
+        let proof = prove::<G, C, S, 2>(stark, &config, trace, &pis, vparams.clone(), &mut TimingTree::default()).expect("the real prover failed on a satisfying trace");
+        starky::verifier::verify_stark_proof(stark, proof.clone(), &config, vparams.clone()).expect("honest proof verifies");
+        let degree_bits = rows.len().trailing_zeros() as usize;
         let mut b = CircuitBuilder::<G, 2>::new(CircuitConfig::standard_recursion_config());
-        let pt = add_virtual_stark_proof_with_pis(&mut b, &stark, &config, degree_bits, 0, 0);
+        let pt = add_virtual_stark_proof_with_pis(&mut b, &stark, &config, var.map_or(degree_bits, |(vb, _)| vb), 0, 0);
         let zero = b.zero();
-        verify_stark_proof_circuit::<G, C, S, 2>(&mut b, stark, pt.clone(), &config, None);
+        verify_stark_proof_circuit::<G, C, S, 2>(&mut b, stark, pt.clone(), &config, var.map(|(_, m)| m));
         let outer = b.build::<C>();
         (proof, degree_bits, outer, pt, zero)
     }));
@@ -2294,7 +2305,8 @@ where
         }));
         matches!(r, Ok(Some(())))
     };
-    let native_accepts = |p: &P| -> bool { matches!(std::panic::catch_unwind(std::panic::AssertUnwindSafe(|| starky::verifier::verify_stark_proof(stark, p.clone(), &config, None))), Ok(Ok(()))) };
+    let vparams = var.map(|(vb, _)| config.fri_params(vb));
+    let native_accepts = |p: &P| -> bool { matches!(std::panic::catch_unwind(std::panic::AssertUnwindSafe(|| starky::verifier::verify_stark_proof(stark, p.clone(), &config, vparams.clone()))), Ok(Ok(()))) };
     type M = Box<dyn Fn(&mut P)>;
     let one = G::ONE;
     let e1 = <G as Extendable<2>>::Extension::from_basefield_array([G::ZERO, G::ONE]);
@@ -2382,6 +2394,22 @@ pub fn e2e_recursive(ctx: &mut Ctx) {
     let fbits = [1u64, 0, 1, 0, 1, 1, 0, 0];
     let mult = [2u64, 2, 2, 1, 1, 2, 1, 1];
     let lrows: Vec<Vec<G>> = (0..8).map(|j| vec![t[sigma[j]], if fbits[j] == 1 { t[tau[j]] } else { G::from_canonical_u64(999 + j as u64) }, t[j], G::from_canonical_u64(mult[j]), G::from_canonical_u64(fbits[j])]).collect();
+    // variable-degree mode: a degree-3 STARK (two quotient chunks), circuit sized for 2^18 rows with
+    // min_degree_bits_to_support = 4, proofs of 2^5 and 2^7 rows
+    let mut vcfg = StarkConfig::standard_fast_config();
+    vcfg.fri_config.num_query_rounds = 3;
+    for bits in [5usize, 7] {
+        let n = 1usize << bits;
+        let (x0, y0, pc) = (G::from_canonical_u64(3), G::from_canonical_u64(11), G::from_canonical_u64(7));
+        let mut crows = vec![vec![x0, y0, y0 + pc]];
+        for j in 1..n {
+            let p = crows[j - 1].clone();
+            let y = p[1] + p[2];
+            crows.push(vec![p[0] * p[1] * p[2], y, y + pc]);
+        }
+        let cpis = vec![x0, crows[n - 1][0], pc];
+        e2e_recursive_var(ctx, "cubic", Cubic::<G, 2>(PhantomData), crows, cpis, &format!("variable-degree-{bits}-of-18"), vcfg.clone(), Some((18, 4)));
+    }
     e2e_recursive_one(ctx, "lookup-deg3", LookupS::<G, 2> { deg: 3, next_table: false, _p: PhantomData }, lrows, vec![], "rate2-cap2-arity21-3ch", {
         let mut c = alt.clone();
         c.fri_config.reduction_strategy = FriReductionStrategy::Fixed(vec![1]);
